@@ -31,7 +31,9 @@ func (c *Client) ehlo() error {
 		extList = extList[1:]
 		for _, line := range extList {
 			k, v, _ := strings.Cut(line, " ")
-			ext[k] = v
+			// extension keywords are not case-sensitive (RFC 5321, section 2.4); Extension
+			// looks them up in upper case
+			ext[strings.ToUpper(k)] = v
 		}
 	}
 	if mechs, ok := ext["AUTH"]; ok {
